@@ -2,7 +2,7 @@
    The visitor is any function [brk] of the callback history; [cut brk h d] scans the callbacks [d]
    of the never-breaking run (oldest first) for the first breakable one on which the visitor answers
    Break, and returns the history up to and including it. *)
-From BS Require Import Impl.Visit Ref.MetaDefs Proofs.ImplRefLeaf Proofs.Transfer Proofs.Entries.
+From BS Require Import Impl.Visit Ref.MetaDefs Proofs.ImplRefLeaf Proofs.Transfer Proofs.Entries Proofs.Examples.
 Open Scope N_scope.
 
 (* under ANY visitor, the visit is the never-breaking visit cut at the first Break: the result is
@@ -41,3 +41,11 @@ Proof.
     + destruct H as [i H]. rewrite H. reflexivity.
     + destruct H as [w [v [l [a [b [c [wt H]]]]]]]. rewrite H. reflexivity.
 Qed.
+
+(* non-vacuity: a visitor breaking at its fourth breakable callback on the example block *)
+Example C09_example :
+  match visit_block ex_brk (sl 3 (ex_block_bytes ++ ex_trailing)) [] with
+  | (Err VisitBreak, h') => lenN (filter breakable h') = 4
+  | _ => False
+  end.
+Proof. exact ex_block_break. Qed.
